@@ -305,6 +305,13 @@ class PrintExec(ME.MiniExec):
                                 env[d['n'] + k_[len(t):]] = env[k_]
         if s is not None and s['k'] == 'CallExpr':
             c = s.get('callee')
+            if not c:
+                c0 = F.strip(s['c'][0])
+                while c0['k'] in ('ParenExpr',) or (c0['k'] == 'UnaryOperator' and c0.get('op') == '*'):
+                    c0 = F.strip(c0['c'][0])
+                fv = env.get(c0['n']) if c0['k'] == 'DeclRefExpr' else None
+                if isinstance(fv, tuple) and len(fv) == 2 and fv[0] == 'func':
+                    c = fv[1]      # a call through a function-valued parameter
             if c == 'fprintf':
                 args = F.call_args(s)
                 t = self.fmt(args[1], env)
